@@ -219,6 +219,59 @@ func (a *nilerr) nmr(v ssa.Value, fn *ssa.Function, depth int) bool {
 			}
 		}
 		return true
+	case *ssa.Parameter:
+		// a node handed in by the callers: at every call the argument is
+		// known not to be nil there, or is itself nil only with an error
+		idx := -1
+		for i, q := range fn.Params {
+			if q == v {
+				idx = i
+			}
+		}
+		sites := 0
+		for _, g := range a.pr.all {
+			for _, b := range g.Blocks {
+				for _, ins := range b.Instrs {
+					c, ok := staticCalleeIs(ins, fn)
+					if !ok || idx < 0 || idx >= len(c.Call.Args) {
+						continue
+					}
+					sites++
+					arg := c.Call.Args[idx]
+					if !nonNilAt(arg, c) && !a.nmr(arg, g, depth+1) {
+						return false
+					}
+				}
+			}
+		}
+		return sites > 0
+	}
+	return false
+}
+
+// nonNilAt: the instruction lies on the non-nil side of a test of v against nil.
+func nonNilAt(v ssa.Value, at ssa.Instruction) bool {
+	if v.Referrers() == nil {
+		return false
+	}
+	for _, ref := range *v.Referrers() {
+		bo, ok := ref.(*ssa.BinOp)
+		if !ok || (bo.Op != token.EQL && bo.Op != token.NEQ) || !(isNilConst(bo.X) || isNilConst(bo.Y)) {
+			continue
+		}
+		for _, r2 := range *bo.Referrers() {
+			iff, ok := r2.(*ssa.If)
+			if !ok {
+				continue
+			}
+			side := iff.Block().Succs[1]
+			if bo.Op == token.NEQ {
+				side = iff.Block().Succs[0]
+			}
+			if len(side.Preds) == 1 && (side == at.Block() || side.Dominates(at.Block())) {
+				return true
+			}
+		}
 	}
 	return false
 }
@@ -918,6 +971,33 @@ func keywordTable(p *Program) map[string]string {
 	return out
 }
 
+// defaultReturn: the constant a lookup function returns when the key is not in
+// its table — returned by the function itself or by the function it hands the
+// lookup to.
+func defaultReturn(fn *ssa.Function, depth int) (int64, bool) {
+	if fn == nil || depth > 3 {
+		return 0, false
+	}
+	var out int64
+	found := false
+	for _, b := range fn.Blocks {
+		ret, ok := terminator(b).(*ssa.Return)
+		if !ok || len(ret.Results) == 0 {
+			continue
+		}
+		if k, ok := constInt(ret.Results[0]); ok {
+			out, found = k, true
+			continue
+		}
+		if c, ok := ret.Results[0].(*ssa.Call); ok && c.Call.StaticCallee() != nil && fnPkg(c.Call.StaticCallee()) == fnPkg(fn) {
+			if k, ok := defaultReturn(c.Call.StaticCallee(), depth+1); ok {
+				out, found = k, true
+			}
+		}
+	}
+	return out, found
+}
+
 func rulePrecTable(p *Program, r *Reporter) {
 	tbl, pos, ok := precedenceTable(p)
 	if !ok {
@@ -945,12 +1025,8 @@ func rulePrecTable(p *Program, r *Reporter) {
 	}
 	// lowest: the default returned by the precedence lookups when the token is
 	// not in the table
-	for _, b := range pr.peekPrec.Blocks {
-		if ret, ok := terminator(b).(*ssa.Return); ok {
-			if k, ok := constInt(ret.Results[0]); ok {
-				lowest = k
-			}
-		}
+	if k, ok := defaultReturn(pr.peekPrec, 0); ok {
+		lowest = k
 	}
 	if prefixLevel < 0 || lowest < 0 {
 		r.Undecided("prefix/lowest levels", p.Pos(pos), fmt.Sprintf("cannot determine the prefix level (%d) or the default level (%d)", prefixLevel, lowest))
@@ -1063,36 +1139,61 @@ func rulePratt(p *Program, r *Reporter) {
 	}
 	// (a) strict < in the loop condition
 	found := false
+	// the loop sits in the expression parser itself or in a function it hands
+	// its binding power to
+	loopFns := []*ssa.Function{a.parseExpr}
+	passedOn := map[*ssa.Function]int{}
 	for _, b := range a.parseExpr.Blocks {
 		for _, ins := range b.Instrs {
-			bo, ok := ins.(*ssa.BinOp)
-			if !ok {
+			c, ok := ins.(*ssa.Call)
+			if !ok || c.Call.StaticCallee() == nil || c.Call.StaticCallee() == a.parseExpr {
 				continue
 			}
-			isPeek := func(v ssa.Value) bool {
-				c, ok := v.(*ssa.Call)
-				return ok && c.Call.StaticCallee() == pr.peekPrec
-			}
-			isParam := func(v ssa.Value) bool {
-				for _, o := range origins(v) {
-					if _, ok := o.(*ssa.Parameter); ok {
-						return true
-					}
+			for i, arg := range c.Call.Args {
+				if prm, ok := arg.(*ssa.Parameter); ok && isInt(prm.Type()) {
+					passedOn[c.Call.StaticCallee()] = i
+					loopFns = append(loopFns, c.Call.StaticCallee())
 				}
-				return false
 			}
-			var strict, relevant bool
-			switch {
-			case isParam(bo.X) && isPeek(bo.Y):
-				relevant, strict = true, bo.Op == token.LSS
-			case isPeek(bo.X) && isParam(bo.Y):
-				relevant, strict = true, bo.Op == token.GTR
+		}
+	}
+	for _, lf := range loopFns {
+		for _, b := range lf.Blocks {
+			for _, ins := range b.Instrs {
+				bo, ok := ins.(*ssa.BinOp)
+				if !ok {
+					continue
+				}
+				isPeek := func(v ssa.Value) bool {
+					c, ok := v.(*ssa.Call)
+					return ok && c.Call.StaticCallee() == pr.peekPrec
+				}
+				isParam := func(v ssa.Value) bool {
+					for _, o := range origins(v) {
+						if prm, ok := o.(*ssa.Parameter); ok {
+							if lf == a.parseExpr {
+								return true
+							}
+							if i, ok := passedOn[lf]; ok && i < len(lf.Params) && lf.Params[i] == prm {
+								return true
+							}
+						}
+					}
+					return false
+				}
+				var strict, relevant bool
+				switch {
+				case isParam(bo.X) && isPeek(bo.Y):
+					relevant, strict = true, bo.Op == token.LSS
+				case isPeek(bo.X) && isParam(bo.Y):
+					relevant, strict = true, bo.Op == token.GTR
+				}
+				if !relevant {
+					continue
+				}
+				found = true
+				r.Check(strict, "Pratt loop comparison is strict", p.Pos(bo.Pos()), "precedence < next operator's", fmt.Sprintf("the loop continues on %q between the caller's binding power and the next operator's: equal levels then group right-to-left (a - b - c parses as a - (b - c))", bo.Op))
 			}
-			if !relevant {
-				continue
-			}
-			found = true
-			r.Check(strict, "Pratt loop comparison is strict", p.Pos(bo.Pos()), "precedence < next operator's", fmt.Sprintf("the loop continues on %q between the caller's binding power and the next operator's: equal levels then group right-to-left (a - b - c parses as a - (b - c))", bo.Op))
 		}
 	}
 	if !found {
@@ -1116,12 +1217,8 @@ func rulePratt(p *Program, r *Reporter) {
 		}
 	}
 	lowest := int64(-1)
-	for _, b := range pr.peekPrec.Blocks {
-		if ret, ok := terminator(b).(*ssa.Return); ok {
-			if k, ok := constInt(ret.Results[0]); ok {
-				lowest = k
-			}
-		}
+	if k, ok := defaultReturn(pr.peekPrec, 0); ok {
+		lowest = k
 	}
 	for _, c := range parseExprCalls(p, pr, a.parseExpr) {
 		key := p.FnName(c.fn) + "/recursive parse level"
